@@ -15578,7 +15578,13 @@ type TunnelEncapTLV struct {
 func (t *TunnelEncapTLV) Len() int {
 	var l int
 	for _, v := range t.Value {
-		l += v.Len()
+		// a sub-TLV built by its constructor does not carry its length
+		// yet: count what it emits
+		if b, err := v.Serialize(); err == nil {
+			l += len(b)
+		} else {
+			l += v.Len()
+		}
 	}
 	return 4 + l // Type(2) + Length(2) + Value(variable)
 }
